@@ -940,6 +940,10 @@ func (m *unlockMon) Name() string                               { return "unlock
 func (m *unlockMon) Init() eng.MState                           { return heldState{} }
 func (m *unlockMon) OnEvent(c *eng.Ctx, ms eng.MState, ev *eng.Event) eng.MState {
 	s := ms.(heldState)
+	if ev.Kind == "return" {
+		m.col.Check("C19.R5", m.label+":unlock", s.r == 0 && s.w == 0, ev.Pos, "the getter returns while still holding the node's lock: the next setter (or, for a write lock, the next getter) blocks forever", pathIf(s.r != 0 || s.w != 0, c))
+		return s
+	}
 	if ev.Kind != "call" {
 		return s
 	}
